@@ -17,7 +17,22 @@ R   TLC enumerates the plans that violate only the deadline rule (PlansViolating
 E   end to end: worlds simulated with ILP (task-by-task), TetriSched-Gurobi, TetriSched-CPLEX
     and Clockwork, enforce_deadlines, zero runtime variance (harness/simrun.run_world); the
     final task states of the trace go to TLC: every COMPLETED task finished by its deadline
-    -> C12.completed_by_deadline.
+    -> C12.completed_by_deadline.  Every other ILP / TetriSched-CPLEX world runs with
+    batching=True.  Every scheduler invocation inside the simulated run is a call record too
+    (the tasks as they were when the policy was invoked, the returned placements): T1 clauses.
+MI  multi-invocation scenarios (cc.realize_steps): ONE scheduler object is invoked 2-3 times;
+    between two invocations the answer is applied to the real tasks / workers with the calls the
+    Simulator makes (Task.schedule / unschedule, TaskGraph.cancel, WorkerPool.place_task +
+    Task.start at the planned time, WorkerPool.step, remove_task + Task.finish), time advances,
+    new work is released (urgent / loose / hopeless).  Every invocation is a call record (T1),
+    its captured model goes through T2 and R: a SCHEDULED task that is planned again must still
+    meet its deadline.  Families: mi-replan (ILP, TetriSched-Gurobi, TetriSched-CPLEX: a planned
+    task pushed by an urgent arrival, deadline swept over the boundary), mi-batch (ILP and
+    TetriSched-CPLEX with batching=True: a batch whose members have different deadlines, tight
+    member first / not first in creation order and in the scheduler's set order (salt), is
+    rebuilt and planned again; BatchGurobiView / BatchCplexView map per-task plans to the
+    BatchTask variables of the captured model), mi-queue (Clockwork, EDF, FIFO: a waiting task
+    whose deadline passes while the worker is busy), mi-rnd (seeded random scenarios).
 """
 from __future__ import annotations
 
@@ -36,10 +51,12 @@ POLICIES = CANCEL + PLANNERS
 DELTAS = {"past": None, "tight-1": -1, "tight": 0, "tight+1": 1, "tight+2": 2, "loose": 9}
 
 CFG = {
-    "quick": dict(n_inst=44, chunks=8, pool_cap=80, pool_time=2, plan_cap=200, max_product=4000, tlc_timeout=300, worlds=8,
-                  judge_batch=100000, agree_small=0),
+    "quick": dict(n_inst=44, chunks=8, pool_cap=80, pool_time=2, plan_cap=200, max_product=4000, tlc_timeout=300, worlds=12,
+                  judge_batch=700, agree_small=0,
+                  mi_scenarios=120, mi_random=32, mi_chunks=4, mi_pool_cap=24, mi_pool_time=0.4, mi_plan_cap=40, mi_max_product=2500, mi_r_max=7),
     "thorough": dict(n_inst=100000, chunks=12, pool_cap=400, pool_time=4, plan_cap=4000, max_product=30000, tlc_timeout=3000, worlds=60,
-                     judge_batch=4000, agree_small=600),
+                     judge_batch=4000, agree_small=600,
+                     mi_scenarios=100000, mi_random=800, mi_chunks=12, mi_pool_cap=120, mi_pool_time=1, mi_plan_cap=300, mi_max_product=8000, mi_r_max=40),
 }
 
 STRATS = {"one": S1L, "two": S2, "twoE": S2E}
@@ -93,6 +110,155 @@ def chain_instance(policy, mode, dk, workers, skind):
             o["rtg"] = True
     name = f"{policy}/chain/{mode}/{skind}/{dk}/w{'+'.join(map(str, workers))}"
     return mk_inst(name, policy, [a, b], workers, now=NOW, horizon=NOW + 9, enforce=True, **o)
+
+
+# ---------------------------------------------------------------------------
+# multi-invocation scenarios: one scheduler object is invoked several times; between two invocations the answer is
+# applied to the real tasks / workers the way the Simulator does (cc.realize_steps); EVERY invocation is a call record.
+
+PB2 = [{"dem": 1, "rt": 3, "bs": 2}]  # a profile that only runs as a batch of two
+PB12 = [{"dem": 1, "rt": 2, "bs": 1}, {"dem": 1, "rt": 3, "bs": 2}]  # alone (faster) or as a batch of two
+MI_PLANNERS = ("ILP", "TSG", "TSC")
+MI_BATCHING = ("ILP", "TSC")
+MI_GREEDY = ("CW", "EDF", "FIFO")
+
+
+def _mi(name, policy, tasks, workers, steps, horizon, salt=0, **kw):
+    inst = mk_inst(name, policy, tasks, workers, now=steps[0], horizon=horizon, enforce=True, **_opts(policy, retract=False, **kw))
+    inst["steps"], inst["salt"] = list(steps), salt
+    return inst
+
+
+def replan_scenario(policy, d_a, du, hopeless, workers, steps=(3, 4)):
+    """A1 takes the worker first, A2 (deadline d_a) is planned behind it; before the second invocation an urgent
+    task U (deadline = now2 + its runtime + du), optionally a hopeless H and a loose L arrive.  A2, still SCHEDULED,
+    is planned again together with them."""
+    now2 = steps[-1]
+    tasks = [
+        mk_task([], S1, state="REL", release=1, deadline=30, graph="A1"),
+        mk_task([], S1, state="REL", release=2, deadline=d_a, graph="A2"),
+        mk_task([], S1, deadline=now2 + 2 + du, graph="U", phase=len(steps), rel_at=now2),
+    ]
+    if hopeless:
+        tasks.append(mk_task([], S1L, deadline=now2 + 2, graph="H", phase=len(steps), rel_at=now2))
+        tasks.append(mk_task([], S2E, deadline=now2 + 20, graph="L", phase=len(steps), rel_at=now2))
+    name = f"{policy}/mi-replan/a{d_a}/u{du}{'/hopeless' if hopeless else ''}/w{'+'.join(map(str, workers))}/t{'-'.join(map(str, steps))}"
+    return _mi(name, policy, tasks, workers, steps, horizon=steps[0] + (8 if hopeless else 10))
+
+
+def batch_scenario(policy, d_t, du, tight_first, blocker, strats, salt, steps):
+    """two tasks of one work profile with different deadlines (loose / d_t) are planned as a batch; before the next
+    invocation an urgent task of another profile arrives that wants the same worker.  The batch, still SCHEDULED, is
+    rebuilt by the scheduler and planned again: it must still meet the deadline of *every* member."""
+    now2 = steps[-1]
+    pair = [
+        mk_task([], strats, state="REL", release=2, deadline=d_t, prof="B", graph="T"),
+        mk_task([], strats, state="REL", release=1, deadline=24, prof="B", graph="L"),
+    ]
+    if not tight_first:
+        pair.reverse()
+    tasks = []
+    if blocker:
+        tasks.append(mk_task([], [{"dem": 1, "rt": 4}], state="RUN", release=0, deadline=30, graph="R", cur={"w": 1, "s": steps[0] - 2, "k": 1}))
+    tasks += pair
+    tasks.append(mk_task([], S1L, deadline=now2 + 3 + du, graph="U", phase=len(steps), rel_at=now2))
+    sk = "b2" if strats is PB2 else "b12"
+    name = (f"{policy}/mi-batch/{sk}/t{d_t}/u{du}/{'tight' if tight_first else 'loose'}-first{'/blocker' if blocker else ''}"
+            f"/s{salt}/t{'-'.join(map(str, steps))}")
+    return _mi(name, policy, tasks, [1], steps, horizon=steps[0] + (12 if blocker else 10), salt=salt, batching=True)
+
+
+def queue_scenario(policy, d_q, du, hopeless, shared, steps):
+    """policies that only place now: A runs, Q (deadline d_q) waits for the worker; at the later invocations the
+    worker is (about to be) free, an urgent U and optionally a hopeless H have arrived"""
+    now_l = steps[-1]
+    st = PB12 if shared else S1
+    kw = {"prof": "M"} if shared else {}
+    tasks = [
+        mk_task([], st, state="REL", release=1, deadline=30, graph="A", **kw),
+        mk_task([], st, state="REL", release=2, deadline=d_q, graph="Q", **kw),
+        mk_task([], st, deadline=now_l + 2 + du, graph="U", phase=len(steps), rel_at=now_l, **kw),
+    ]
+    if hopeless:
+        tasks.append(mk_task([], S1L, deadline=now_l + 2, graph="H", phase=len(steps), rel_at=now_l))
+    name = f"{policy}/mi-queue/q{d_q}/u{du}{'/hopeless' if hopeless else ''}{'/shared' if shared else ''}/t{'-'.join(map(str, steps))}"
+    return _mi(name, policy, tasks, [1], steps, horizon=steps[0] + 10)
+
+
+def directed_scenarios():
+    out = []
+    for policy in MI_PLANNERS:
+        for d_a in (7, 8, 9, 10, 11, 12, 13, 15):
+            for du in (0, 1, 3):
+                for hopeless in (False, True):
+                    out.append(replan_scenario(policy, d_a, du, hopeless, [1]))
+            out.append(replan_scenario(policy, d_a, 0, False, [1, 1]))
+            out.append(replan_scenario(policy, d_a, 1, False, [1], steps=(3, 3)))
+            out.append(replan_scenario(policy, d_a, 0, True, [1], steps=(3, 4, 5)))
+    for policy in MI_BATCHING:
+        for strats in (PB2, PB12):
+            for blocker in (False, True):
+                steps = (3, 4) if blocker else (3, 3)
+                for d_t in ((6, 7, 8, 9, 10, 12) if not blocker else (9, 10, 11, 12, 13, 14, 16)):
+                    for du in (1, 2):
+                        for tight_first in (False, True):
+                            for salt in (0, 1):
+                                out.append(batch_scenario(policy, d_t, du, tight_first, blocker, strats, salt, steps))
+    for policy in MI_GREEDY:
+        for d_q in (5, 6, 7, 8, 12):
+            for du in (0, 1):
+                for hopeless in (False, True):
+                    for shared in ((False, True) if policy == "CW" else (False,)):
+                        out.append(queue_scenario(policy, d_q, du, hopeless, shared, (3, 5)))
+                out.append(queue_scenario(policy, d_q, du, True, False, (3, 4, 5)))
+    return out
+
+
+def random_scenario(rnd, n):
+    """seeded: 3-5 tasks over 1-2 work profiles, 2-3 invocations, deadlines around the boundary of what can still
+    be met at the invocation the task is released for"""
+    kind = rnd.choice(["ILP", "ILP+b", "ILP+b", "TSG", "TSC", "TSC+b", "TSC+b", "CW", "CW"])
+    policy, batching = kind.split("+")[0], kind.endswith("+b")
+    nsteps = rnd.choice([2, 2, 3])
+    steps = [3]
+    for _ in range(nsteps - 1):
+        steps.append(steps[-1] + rnd.choice([0, 1, 1, 2]) if policy != "CW" else steps[-1] + rnd.choice([1, 2, 3]))
+    profs = {"B": rnd.choice([PB2, PB12, PB12]), "C": rnd.choice([S1, S1L, S2E])}
+    workers = rnd.choice([[1], [1], [1, 1], [2]])
+    tasks = []
+    if policy != "CW" and rnd.random() < 0.5:
+        tasks.append(mk_task([], [{"dem": 1, "rt": 4}], state="RUN", release=0, deadline=30, graph="R", cur={"w": 1, "s": steps[0] - rnd.choice([1, 2]), "k": 1}))
+    for j in range(rnd.choice([3, 3, 4])):
+        pn = rnd.choice(["B", "B", "C"]) if (batching or policy == "CW") else "C"
+        st = profs[pn]
+        phase = 1 if j < 2 else rnd.randrange(1, nsteps + 1)
+        at = steps[phase - 1]
+        fast = min(s["rt"] for s in st)
+        dl = at + fast + rnd.choice([-1, 0, 0, 1, 1, 2, 3, 4, 6, 9, 15])
+        kw = {"prof": pn} if (pn == "B" or policy == "CW") else {}
+        if phase == 1:
+            tasks.append(mk_task([], st, state="REL", release=rnd.choice([1, 2, 3]), deadline=dl, graph=f"G{j}", **kw))
+        else:
+            tasks.append(mk_task([], st, deadline=dl, graph=f"G{j}", phase=phase, rel_at=at, **kw))
+    name = f"{policy}/mi-rnd/{'batching/' if batching else ''}{n}"
+    return _mi(name, policy, tasks, workers, steps, horizon=steps[0] + 9, salt=rnd.randrange(4), batching=batching)
+
+
+def scenario_selection(scns, n, rnd):
+    """quick tier: every policy x family x boundary parameter at least once; the rest seeded"""
+    by = {}
+    for i in scns:
+        parts = i["name"].split("/")
+        by.setdefault((parts[0], parts[1], parts[2] if parts[1] != "mi-batch" else parts[3]), []).append(i)
+    sel, names = [], set()
+    for key in sorted(by):
+        c = rnd.choice(by[key])
+        sel.append(c)
+        names.add(c["name"])
+    rest = [i for i in scns if i["name"] not in names]
+    rnd.shuffle(rest)
+    sel += rest[: max(0, n - len(sel))]
+    return sel
 
 
 def all_instances():
@@ -159,10 +325,14 @@ def e2e_worlds(n, rnd):
         kind = kinds[k % len(kinds)]
         k += 1
         two = rnd.random() < 0.5
+        # ILP / TetriSched-CPLEX: every other world of the kind with batching=True (BatchTasks, a strategy of batch size 2)
+        batching = kind in ("ilp", "ts_cplex") and (k // len(kinds)) % 2 == 1
+        rt1 = rnd.choice([1, 2, 4])
         profiles = [
             {"name": "P0", "strats": [{"dem": R(1), "rt": rnd.choice([2, 3]), "bs": 1}]
              + ([{"dem": R(2), "rt": 1, "bs": 1}] if two and kind != "clockwork" else []), "loading": zero_load},
-            {"name": "P1", "strats": [{"dem": R(1), "rt": rnd.choice([1, 2, 4]), "bs": 1}], "loading": zero_load},
+            {"name": "P1", "strats": [{"dem": R(1), "rt": rt1, "bs": 1}]
+             + ([{"dem": R(1), "rt": rt1 + 1, "bs": 2}] if batching or (kind == "clockwork" and two) else []), "loading": zero_load},
         ]
         shape = rnd.choice(["single", "chain2", "fork", "chain2"])
         jobs = {
@@ -179,9 +349,9 @@ def e2e_worlds(n, rnd):
                            "policy": {"type": "fixed", "period": 2, "n": 3, "start": 0}, "dv": rnd.choice([[0, 50], [30, 90]])})
         pools = [[[I("g1", rnd.choice([1, 2]))]] + ([[I("g2", 1)]] if rnd.random() < 0.4 else [])]
         sched = {"kind": kind, "runtime": 0, "enforce": True, "lookahead": 0, "retract": kind == "ts_gurobi", "rtg": False,
-                 "goal": "max_goodput", "disc": 1, "plan_ahead": 10, "batching": False}
+                 "goal": "max_goodput", "disc": 1, "plan_ahead": 10, "batching": batching}
         out.append({
-            "name": f"e2e/{kind}/{len(out)}", "profiles": profiles, "graphs": graphs, "pools": pools, "sched": sched,
+            "name": f"e2e/{kind}{'+batching' if batching else ''}/{len(out)}", "profiles": profiles, "graphs": graphs, "pools": pools, "sched": sched,
             "flags": {"timeout": 120, "variance": 0, "frequency": -1, "drop_skipped": rnd.random() < 0.3},
             "seed": rnd.randrange(10**6), "preload": kind == "clockwork",
         })
@@ -230,19 +400,91 @@ def _e2e_job(world):
 
     with contextlib.redirect_stdout(io.StringIO()):
         tr = simrun.run_world(world, wall_limit=90)
-    last = {}
+    last, static = {}, {}
+
+    def statics(delta):
+        for g in delta.get("new", []):
+            for t in g["tasks"]:
+                static[t["t"]] = t
+
+    statics(tr.get("init", {}))
     for i, dyn in tr.get("init", {}).get("ts", []):
         last[i] = dyn
     nsched = 0
+    calls = []
     for rec in tr.get("recs", []):
-        for i, dyn in rec.get("post", {}).get("ts", []):
-            last[i] = dyn
         if rec.get("sched"):
             nsched += 1
+            # one record per scheduler invocation inside the Simulator: the tasks the policy was offered / answered for,
+            # as they were when it was invoked (`last` = the state before this event), and the answers
+            offered = set(rec["offers"][0]["res"]) if rec.get("offers") else set()
+            decs = [d for d in rec["sched"]["decs"] if d["kind"] in (3, 4) and d["t"]]
+            ids = sorted(offered | {d["t"] for d in decs})
+            if ids and all(i in last and i in static for i in ids):
+                calls.append({
+                    "now": rec["tm"], "call": nsched,
+                    "tasks": [{"t": i, "st": last[i]["st"], "rel": last[i]["rel"], "dl": last[i]["dl"], "plan": last[i]["plan"],
+                               "strats": static[i]["strats"], "prof": static[i]["prof"], "offered": i in offered} for i in ids],
+                    "decs": decs,
+                })
+        statics(rec.get("post", {}))
+        for i, dyn in rec.get("post", {}).get("ts", []):
+            last[i] = dyn
     return {
         "name": world["name"], "kind": world["sched"]["kind"], "end": tr.get("end"), "tasks": [last[i] for i in sorted(last)],
         "scheduler_calls": nsched, "wall_s": tr.get("wall_s"), "machinery_error": tr.get("machinery_error"),
+        "calls": calls, "pools": tr.get("pools"), "batching": bool(world["sched"].get("batching")),
     }
+
+
+def e2e_call_records(o):
+    """the scheduler invocations of a simulated world -> call records of PlanRules (src "returned"): every returned plan,
+    also of SCHEDULED tasks planned again, is judged with DeadlineOK / the admission clauses"""
+    pol = {"ilp": "ILP", "ts_gurobi": "TSG", "ts_cplex": "TSC", "clockwork": "CW"}[o["kind"]]
+    caps = [sum(r["cap"] for r in w) for pool in (o.get("pools") or []) for w in pool] or [1]
+    out, skipped = [], 0
+    for c in o.get("calls", []):
+        tasks, dec, pos = [], [], {}
+        ok = True
+        for t in c["tasks"]:
+            st = cc.TASK_STATES.get(t["st"])
+            if st is None:
+                ok = False
+                break
+            strats = [{"dem": sum(x["q"] for x in s["dem"]), "rt": s["rt"], "bs": s["bs"]} for s in t["strats"]]
+            plan = t["plan"]
+            cur = {"w": 0, "s": 0, "k": 0}
+            if st in ("SCHED", "RUN"):
+                k = next((j + 1 for j, s in enumerate(strats) if (s["rt"], s["bs"]) == (plan["sd"]["rt"], plan["sd"]["bs"])), 0)
+                cur = {"w": max(1, plan["wk"]), "s": max(0, plan["tm"]), "k": k}
+                ok = ok and k > 0
+            pos[t["t"]] = len(tasks)
+            tasks.append(mk_task([], strats, state=st, release=max(0, t["rel"]) if st != "VIRT" else -1, deadline=t["dl"], cur=cur,
+                                 fin=(cur["s"] + strats[cur["k"] - 1]["rt"]) if cur["k"] else -1,
+                                 offered=t["offered"], dec=True, prof=f"P{t['prof']}"))
+            dec.append({"kind": "none", "w": 0, "s": 0, "k": 0})
+        for d in c["decs"] if ok else []:
+            j = pos[d["t"]]
+            if d["kind"] == 3:
+                dec[j] = {"kind": "cancel", "w": 0, "s": 0, "k": 0}
+            elif not d["placed"]:
+                if dec[j]["kind"] == "none":
+                    dec[j] = {"kind": "unplaced", "w": 0, "s": 0, "k": 0}
+            else:
+                st_ = tasks[j]["strats"]
+                k = next((x + 1 for x, s in enumerate(st_) if (s["rt"], s["bs"]) == (d["sd"]["rt"], d["sd"]["bs"])), 0)
+                if k == 0 or d["wk"] > len(caps):
+                    ok = False
+                    break
+                dec[j] = {"kind": "place", "w": max(1, d["wk"]), "s": d["tm"], "k": k}
+        if not ok:
+            skipped += 1
+            continue
+        inst = mk_inst(f"{o['name']}/call{c['call']}", pol, tasks, caps, now=c["now"], horizon=c["now"], enforce=True,
+                       batching=o.get("batching", False))
+        inst["step"] = c["call"]
+        out.append({"src": "returned", "inst": inst, "dec": dec, "info": {"e2e_call": True}})
+    return out, skipped
 
 
 def e2e_record(o):
@@ -271,9 +513,11 @@ def _job(kind, *a):
 
 
 def key_of(inst, what):
-    """policy + circumstance (instance class, deadline relative to now) + clause"""
+    """policy + circumstance (instance class, deadline relative to now / which invocation) + clause"""
     parts = inst["name"].split("/")
     dk = next((p for p in parts if p in DELTAS), "")
+    if parts[1].startswith("mi-"):
+        dk = ("batching/" if inst["opts"].get("batching") else "") + f"invocation{min(inst.get('step', 1), 2)}"
     return f"{parts[0]}/{parts[1]}/{dk}|{what}"
 
 
@@ -288,10 +532,22 @@ def run(tier: str) -> CheckResult:
     insts.sort(key=lambda i: i["policy"])
     parts = [insts[k::cfg["chunks"]] for k in range(cfg["chunks"])]
     jobs = [("chunk", f"c12/{k}", p, cfg) for k, p in enumerate(parts) if p]
+    # multi-invocation scenarios (directed families + seeded random ones), chunks of their own
+    scns = directed_scenarios()
+    n_directed = len(scns)
+    if len(scns) > cfg["mi_scenarios"]:
+        scns = scenario_selection(scns, cfg["mi_scenarios"], rng("c12-mi"))
+    rr = rng("c12-mi-rnd")
+    scns += [random_scenario(rr, n) for n in range(cfg["mi_random"])]
+    scns.sort(key=lambda i: (i["policy"], i["name"]))
+    mi_cfg = dict(cfg, pool_cap=cfg["mi_pool_cap"], pool_time=cfg["mi_pool_time"], plan_cap=cfg["mi_plan_cap"], max_product=cfg["mi_max_product"], r_from_invocation=2,
+                  r_max_instances=cfg["mi_r_max"])
+    mi_parts = [scns[k::cfg["mi_chunks"]] for k in range(cfg["mi_chunks"])]
+    jobs += [("chunk", f"c12/mi{k}", p, mi_cfg) for k, p in enumerate(mi_parts) if p]
     worlds_ = e2e_worlds(cfg["worlds"], rng("c12-e2e"))
     jobs += [("e2e", w) for w in worlds_]
     t0 = time.time()
-    outs_all = parallel(_job, jobs, procs=min(12, cfg["chunks"] + 4))
+    outs_all = parallel(_job, jobs, procs=min(16, cfg["chunks"] + cfg["mi_chunks"] + 2))
     t_jobs = time.time() - t0
     outs = [o for j, o in zip(jobs, outs_all) if j[0] == "chunk"]
     e2e = [o for j, o in zip(jobs, outs_all) if j[0] == "e2e"]
@@ -300,7 +556,8 @@ def run(tier: str) -> CheckResult:
         for r in o["records"]:
             r["id"] = len(recs) + 1
             recs.append(r)
-    e2e_stats = {"worlds": len(e2e), "tasks": 0, "completed": 0, "cancelled": 0, "by_policy": {}, "crashed": 0, "scheduler_calls": 0}
+    e2e_stats = {"worlds": len(e2e), "tasks": 0, "completed": 0, "cancelled": 0, "by_policy": {}, "crashed": 0, "scheduler_calls": 0,
+                 "call_records": 0, "call_records_not_projectable": 0, "call_records_with_scheduled_task_planned_again": 0}
     notes = []
     for o in e2e:
         if o.get("machinery_error"):
@@ -316,12 +573,21 @@ def run(tier: str) -> CheckResult:
             continue
         r["id"] = len(recs) + 1
         recs.append(r)
+        crecs, skipped = e2e_call_records(o)
+        for cr in crecs:
+            cr["id"] = len(recs) + 1
+            recs.append(cr)
+        e2e_stats["call_records"] += len(crecs)
+        e2e_stats["call_records_not_projectable"] += skipped
+        e2e_stats["call_records_with_scheduled_task_planned_again"] += sum(
+            1 for cr in crecs if any(t["state"] == "SCHED" and d["kind"] == "place" for t, d in zip(cr["inst"]["tasks"], cr["dec"]))
+        )
         done = sum(1 for t in o["tasks"] if t["st"] == 7)
         e2e_stats["tasks"] += len(o["tasks"])
         e2e_stats["completed"] += done
         e2e_stats["cancelled"] += sum(1 for t in o["tasks"] if t["st"] == 8)
         e2e_stats["scheduler_calls"] += o["scheduler_calls"]
-        bp = e2e_stats["by_policy"].setdefault(o["kind"], {"worlds": 0, "completed": 0, "tasks": 0})
+        bp = e2e_stats["by_policy"].setdefault(o["kind"] + ("+batching" if o.get("batching") else ""), {"worlds": 0, "completed": 0, "tasks": 0})
         bp["worlds"] += 1
         bp["completed"] += done
         bp["tasks"] += len(o["tasks"])
@@ -334,6 +600,7 @@ def run(tier: str) -> CheckResult:
     res.extra["tlc_record_runs"] = truns
     res.traces_validated = len(recs)
     byid = {r["id"]: r for r in recs}
+    by_name = {i["name"]: i for i in scns}
     counters = {}
     for o in outs:
         for k, v in o["counters"].items():
@@ -356,6 +623,8 @@ def run(tier: str) -> CheckResult:
                 clause, what = "C12.model_solution", f"a feasible solution of the {r['inst']['policy']} model violates {c}"
             elif r["src"] == "e2e":
                 clause, what = c, f"a task completed after its deadline in a run with {r['inst']['policy']}, enforce_deadlines, exact runtimes"
+            elif r["info"].get("e2e_call"):
+                clause, what = c, f"an answer of {r['inst']['policy']} given inside a simulated run violates {c}"
             else:
                 clause, what = c, f"the answer of {r['inst']['policy']} violates {c}"
             detail = {"source": r["src"], "failed_clause": c, "raw": {"inst": r["inst"], "dec": r["dec"]}}
@@ -367,6 +636,8 @@ def run(tier: str) -> CheckResult:
                 detail["world"] = next((w for w in worlds_ if w["name"] == r["inst"]["name"]), None)
             else:
                 detail["instance"] = cc.compact_inst(r["inst"], r["dec"])
+                if "steps" in r["inst"]:
+                    detail["scenario"] = by_name.get(r["inst"]["name"].rsplit("@", 1)[0])
             res.violate(clause, f"{what} [{r['inst']['name']}]", detail,
                         key=key_of(r["inst"], c if r["src"] != "pool" else f"model_solution:{c}"))
     if wf:
@@ -385,10 +656,36 @@ def run(tier: str) -> CheckResult:
                         "instance": cc.compact_inst(rr["inst"], cc.dec_of_compact(rr["inst"], a["plan"])),
                         "late_by": a["margin"], "admitted_plans": rr["n_admitted"], "of_checked": rr["checked"],
                         "examples": rr["admitted"], "raw": {"inst": rr["inst"]},
+                        **({"scenario": by_name.get(rr["name"].rsplit("@", 1)[0])} if "steps" in rr["inst"] else {}),
                     },
                     key=key_of(rr["inst"], "model_admits_late_plan"),
                 )
+    later = [r for r in recs if r["src"] == "returned" and r["inst"].get("step", 1) > 1]
     res.extra.update({
+        "multi_invocation": {
+            "directed_scenarios_defined": n_directed, "scenarios_run": len(scns),
+            "scenarios_by_policy": {
+                p: sum(1 for i in scns if i["policy"] == p) for p in sorted({i["policy"] for i in scns})
+            },
+            "scenarios_with_batching": sum(1 for i in scns if i["opts"].get("batching")),
+            "records_of_later_invocations": len(later),
+            "later_invocations_by_policy": {
+                p + ("+batching" if b else ""): sum(1 for r in later if r["inst"]["policy"] == p and bool(r["inst"]["opts"].get("batching")) == b)
+                for p in sorted({r["inst"]["policy"] for r in later}) for b in (False, True)
+                if any(r["inst"]["policy"] == p and bool(r["inst"]["opts"].get("batching")) == b for r in later)
+            },
+            "later_invocation_answers": {
+                k: sum(1 for r in later for d in r["dec"] if d["kind"] == k) for k in ("place", "unplaced", "cancel", "none")
+            },
+            "scheduled_tasks_planned_again": sum(
+                1 for r in later for t, d in zip(r["inst"]["tasks"], r["dec"]) if t["state"] == "SCHED" and d["kind"] == "place"
+            ),
+            "pool_records_of_later_invocations": sum(1 for r in recs if r["src"] == "pool" and r["inst"].get("step", 1) > 1),
+            "pool_records_of_batching_models": sum(1 for r in recs if r["src"] == "pool" and r["inst"]["opts"].get("batching")),
+            "r_instances_later_invocations": sum(1 for o in outs for x in o["r"] if x["inst"].get("step", 1) > 1),
+            "r_instances_batching": sum(1 for o in outs for x in o["r"] if x["inst"]["opts"].get("batching")),
+            "r_plans_checked_batching": sum(x["checked"] for o in outs for x in o["r"] if x["inst"]["opts"].get("batching")),
+        },
         "instances": len(insts),
         "instances_by_policy": {p: sum(1 for i in insts if i["policy"] == p) for p in POLICIES},
         "records_returned": sum(1 for r in recs if r["src"] == "returned"),
@@ -405,13 +702,20 @@ def run(tier: str) -> CheckResult:
         "timing_s": {"jobs": round(t_jobs, 1), "judge": round(t_judge, 1), "chunks": [o["timing"] for o in outs]},
         "constants": {k: v for k, v in cfg.items()},
     })
-    want = [("cancel", 2), ("place", 3), ("unplaced", 2)]
+    want = [("cancel", 1), ("place", 2), ("unplaced", 1)]
     for kind, k in want:
         got = 0
         for r in recs:
             if r["src"] == "returned" and got < k and any(d["kind"] == kind for d in r["dec"]):
                 res.samples.append({"instance": cc.compact_inst(r["inst"], r["dec"]), "verdict": fails.get(r["id"], "ok")})
                 got += 1
+    # later invocations: a SCHEDULED task planned again, without and with batching
+    for batching in (False, True):
+        r = next((r for r in later if "steps" in r["inst"] and bool(r["inst"]["opts"].get("batching")) == batching
+                  and any(t["state"] == "SCHED" and d["kind"] == "place" and (d["s"], d["w"]) != (t["cur"]["s"], t["cur"]["w"])
+                          for t, d in zip(r["inst"]["tasks"], r["dec"]))), None)
+        if r is not None:
+            res.samples.append({"instance": cc.compact_inst(r["inst"], r["dec"]), "verdict": fails.get(r["id"], "ok")})
     for o in outs:
         for rr in o["r"]:
             if len(res.samples) < 8 and rr["enumerated"] > 0:
@@ -422,7 +726,10 @@ def run(tier: str) -> CheckResult:
         "TetriSched-CPLEX; plans of ILP (task-by-task mode only: with release_taskgraphs the code makes enforcement conditional), "
         "TetriSched-Gurobi, TetriSched-CPLEX, Clockwork; T2 (solution pool) + R on the captured Gurobi models (ILP, TetriSched-Gurobi); "
         "R only on a clone of the docplex model taken when TetriSched-CPLEX calls solve() (the scheduler ends its own model before "
-        "returning; no pool enumeration with the CPLEX community edition); Z3 is not part of C12 (its deadline constraint is soft)"
+        "returning; no pool enumeration with the CPLEX community edition); Z3 is not part of C12 (its deadline constraint is soft); "
+        "multi-invocation scenarios of ILP / TetriSched-Gurobi / TetriSched-CPLEX / Clockwork / EDF / FIFO (every invocation judged, "
+        "T2 + R on the models of the later invocations), batching=True for ILP and TetriSched-CPLEX (BatchTask variables of the "
+        "captured models); every scheduler invocation of the simulated worlds"
     )
     res.assumptions += [
         "TLC; Gurobi's INFEASIBLE answers on models with all decision variables fixed; pools are samples (cap in constants)",
@@ -430,6 +737,11 @@ def run(tier: str) -> CheckResult:
         "policies C12.hopeless_cancelled is read as an equivalence: exactly the non-admitted tasks are answered with CANCEL (a task that "
         "can still finish with its fastest strategy starting now, deadline == now + runtime included, is not dropped by the admission test)",
         "end to end: final task states (state, completion time, deadline) read by the tracer (harness/simrun.py) from the real tasks",
+        "multi-invocation scenarios: between two invocations the harness makes the calls the Simulator makes on SCHEDULER_FINISHED / "
+        "TASK_PLACEMENT / clock steps / TASK_FINISHED (finishes before placements before the scheduler at equal times, drop_skipped_tasks "
+        "off); a plan the workers cannot take at the planned time (the Simulator would defer it: WORKER_NOT_READY) or a schedule() that "
+        "raises ends the scenario there (counted in `counters`, never a verdict); the ids of the real Task objects (they fix the iteration "
+        "order of the schedulers' task sets) are seeded per scenario (`salt`)",
     ]
     return res
 
@@ -439,6 +751,20 @@ def replay(d) -> int:
     inst = raw.get("inst")
     if not inst or d["detail"].get("source") == "e2e":
         return 0
+    scn = d["detail"].get("scenario")
+    if scn:
+        # a multi-invocation scenario: run all its invocations again, judge every answer
+        answers = cc.realize_steps(scn)
+        recs = [{"id": k + 1, "src": "returned", "inst": a[0], "dec": a[1]} for k, a in enumerate(answers)]
+        for a in answers:
+            print(json.dumps(cc.compact_inst(a[0], a[1]), indent=1))
+        fails, _, _ = cc.judge_records(recs)
+        print("failing clauses per invocation:", {recs[k - 1]["inst"]["name"]: v for k, v in fails.items()})
+        return 1 if any(c.startswith("C12.") for v in fails.values() for c in v) else 0
+    if inst["name"].startswith("e2e/"):
+        fails, _, _ = cc.judge_records([{"id": 1, "src": "returned", "inst": inst, "dec": raw.get("dec")}])
+        print("failing clauses of the recorded answer:", fails.get(1, []))
+        return 1 if any(c.startswith("C12.") for c in fails.get(1, [])) else 0
     inst2, dec, info, handle = cc.realize(inst)
     print(json.dumps(cc.compact_inst(inst2, dec), indent=1))
     fails, _, _ = cc.judge_records([{"id": 1, "src": "returned", "inst": inst2, "dec": dec}])
